@@ -39,6 +39,8 @@ func main() {
 		os.Exit(cmdCheck(os.Args[2:]))
 	case "replay":
 		os.Exit(cmdReplay(os.Args[2:]))
+	case "selftest":
+		os.Exit(cmdSelftest(os.Args[2:]))
 	default:
 		fmt.Fprintln(os.Stderr, "unknown command", os.Args[1])
 		os.Exit(2)
@@ -183,6 +185,10 @@ func runCheck(prop string, o *checkOpts) int {
 		fmt.Fprintf(os.Stderr, "no harness files for %s\n", prop)
 		return 2
 	}
+	// native validation of harness-side models (verifST_*) belonging to this property, if any
+	if rc := cmdSelftest([]string{prop}); rc != 0 {
+		fmt.Printf("MODEL-MISMATCH property=%s: a harness model disagrees with the library it stands for; results below are not to be trusted until it is repaired\n", prop)
+	}
 	known := loadKnownFindings()
 	var results []*exec.HarnessResult
 	var dirs []string
@@ -325,8 +331,8 @@ func printHarnessSummary(r *exec.HarnessResult) {
 	} else if r.Inconclusive > 0 || len(r.Undischarged) > 0 || r.Truncated {
 		status = "INCONCLUSIVE"
 	}
-	fmt.Printf("%-14s %s paths=%d ok=%d infeasible=%d inconclusive=%d asserts=%d/%d panicchecks=%d queries=%d (unknown %d) solver=%.1fs wall=%.1fs\n",
-		status, r.Name, r.Paths, r.PathsOK, r.Infeasible, r.Inconclusive, r.Discharged, r.Asserts, r.PanicChecks, r.Solver.Queries, r.Solver.Unknown, r.Solver.SolveTime.Seconds(), r.Wall.Seconds())
+	fmt.Printf("%-14s %s paths=%d ok=%d infeasible=%d inconclusive=%d asserts=%d/%d panicchecks=%d queries=%d (unknown %d, modelhits %d) solver=%.1fs wall=%.1fs\n",
+		status, r.Name, r.Paths, r.PathsOK, r.Infeasible, r.Inconclusive, r.Discharged, r.Asserts, r.PanicChecks, r.Solver.Queries, r.Solver.Unknown, r.ModelHits, r.Solver.SolveTime.Seconds(), r.Wall.Seconds())
 	for msg, n := range r.InconclusiveReasons {
 		fmt.Printf("    inconclusive x%d: %s\n", n, firstLine(msg, 300))
 	}
